@@ -610,6 +610,9 @@ class NetlistMixin(object):
                     net = cpt._zero()
                 else:
                     net = cpt._kill()
+            elif 'ICs' in sourcenames and cpt.has_ic:
+                # Kill implicit sources due to initial conditions
+                net = cpt._kill()
             else:
                 net = cpt._copy()
             new._add(net)
